@@ -620,6 +620,7 @@ class CState:
             self.edges = list(cspec["edges"])
             self.yscale = max(1.0, len(cspec["entries"]) / float(self.n))
         self.manual = False  # hist: heights set with set_bins (fill / rebin are then refused, as documented)
+        self.allow_set_bins = True
 
     def new_name(self):
         self.k += 1
@@ -667,9 +668,7 @@ def gen_container_op(rng, st):
         r = rng.random()
         if r < 0.25:
             return ["read"]
-        if t == "hist" and st.manual and 0.75 <= r < 0.9:
-            continue
-        if t == "hist" and r >= 0.97 and not st.manual:
+        if t == "hist" and r >= 0.97 and not st.manual and st.allow_set_bins:
             return gen_set_bins(rng, st.n)
         if r < 0.45:
             return gen_valid_source(rng, t, st.n, st.new_name(), False, st.yscale)
@@ -682,6 +681,8 @@ def gen_container_op(rng, st):
             if dis:
                 return ["enable_error", dis[int(rng.integers(0, len(dis)))]]
         if r < 0.9:
+            if t == "hist" and st.manual:
+                continue
             if t == "hist":
                 if rng.random() < 0.6:
                     return gen_fill(rng, st)
@@ -757,6 +758,7 @@ def gen_container_spec(rng, ttype, tier):
 def gen_container_case(rng, tier, ttype, operator, variant):
     cspec = gen_container_spec(rng, ttype, tier)
     st = CState(ttype, cspec)
+    st.allow_set_bins = operator not in ("unsorted-edges", "bin-heights-shape")  # rebin / fill must stay possible around the malformed call
     setup = []
     for _ in range(int(rng.integers(0, 3))):
         op = gen_valid_source(rng, ttype, st.n, st.new_name(), False, st.yscale)
@@ -1272,7 +1274,7 @@ class MState:
         if k in ("add_error", "add_matrix_error"):
             self.sources.append([op[1]["name"], True])
             if isinstance(op[1]["fits"], int):
-                self.own[op[1]["fits"]].append(op[1]["name"])
+                self.own[op[1]["fits"]].append([op[1]["name"], op[1].get("reference", "data")])
         elif k in ("disable_error", "enable_error"):
             for s in self.sources:
                 if s[0] == op[1]:
@@ -1381,12 +1383,13 @@ def gen_bad_multi_op(rng, st, operator, variant, form):
         if not pool:
             return None
         j = pool[int(rng.integers(0, len(pool)))]
-        taken = st.own[j][int(rng.integers(0, len(st.own[j])))]
-        valid = gen_valid_source(rng, _shared_ttype(st, fits), st.n, st.new_name(), True, st.yscale, force={"relative": False})
+        # names are unique per container (data / model) of a member: the shared source refers to the container that holds the name
+        taken, ref = st.own[j][int(rng.integers(0, len(st.own[j])))]
+        valid = gen_valid_source(rng, _shared_ttype(st, fits), st.n, st.new_name(), True, st.yscale, force={"relative": False, "reference": ref})
         as_shared(rng, st, fits, valid)
         bad = copy.deepcopy(valid)
         bad[1]["name"] = taken
-        return valid, bad, {"taken_in_member": j, "members_before": order[: order.index(j)], "fits": fits}
+        return valid, bad, {"taken_in_member": j, "taken_in": ref, "members_before": order[: order.index(j)], "fits": fits}
     raise KeyError(operator)
 
 
@@ -1429,7 +1432,8 @@ def gen_multi_case(rng, tier, mkind, operator, variant):
     L = int(rng.integers(2, 8 if tier == "quick" else 16))
     r = rng.random()
     pos = 0 if r < 0.12 else (L if r < 0.24 else int(rng.integers(0, L + 1)))
-    fit_at = int(rng.integers(0, L)) if rng.random() < 0.1 else -1
+    # a MultiFit minimisation with shared sources takes seconds: thorough tier only
+    fit_at = int(rng.integers(0, L)) if (tier != "quick" and rng.random() < 0.1) else -1
     follow = bool(rng.random() < 0.5)
     history, valid, bad, info = [], None, None, {}
     while len(history) < L or bad is None:
